@@ -64,7 +64,8 @@ def register(reg):
     reg.add_fn(FnContract(key="hippolyzer.lib.base.message.circuit:Circuit.send_acks", relpath=CIRC_REL,
                           qualname="Circuit.send_acks", cls="Circuit", prop=PID, verify=False, use_wf=False,
                           params={"to_ack": "IntList", "direction": "Dir", "packet_id": "Opt[Int]"},
-                          param_names=["to_ack", "direction", "packet_id"], defaults={"packet_id": None},
+                          param_names=["to_ack", "direction", "packet_id"],
+                          defaults={"packet_id": None, "direction": reg.consts["Direction.OUT"]},
                           frame=[], record_as="send_acks",
                           doc="sends one PacketAck carrying exactly to_ack in `direction` (checked natively in tier B)"))
 
